@@ -439,6 +439,11 @@ def _main(pid, a, seed):
                                  '%s\n' % e['key'])
                 notes.append('stale known finding: ' + e['key'])
         elif e.get('status') == 'fixed':
+            if violated and sig in {f['key'] for f in findings
+                                    if f.get('status') == 'known'}:
+                # (the same history also shows a recorded known finding,
+                # which is reported by its own entry)
+                continue
             if violated:
                 print(msg)
                 print('VIOLATION property=%s replay=%s' % (pid, w))
